@@ -388,6 +388,11 @@ func (b BodySpec) Representable() bool {
 	return b.Kind == "raw"
 }
 
+// Sendable: representable as a body and small enough for one packet (65536 octets).
+func (b BodySpec) Sendable() bool {
+	return b.Representable() && len(b.Encode()) <= model.MaxBody
+}
+
 // FromModelBytes decodes RFC-laid-out bytes of a kind into the neutral form with the
 // model's strict decoder.
 func FromModelBytes(kind string, b []byte) (BodySpec, error) {
